@@ -52,14 +52,14 @@ def marker_set(name, dim, shape, dx, dtype, seed=0):
     return P.astype(dtype)
 
 
-def case_adjoint(dim, kernel, dtype, dx, ncomp, mset, seed, shift="default"):
+def case_adjoint(dim, kernel, dtype, dx, ncomp, mset, seed, shift="default", n_markers=None):
     real_t = np.dtype(dtype).type
     shape = lagcomm.SHAPES[dim]
     eps = float(np.finfo(real_t).eps)
-    comm = lagcomm.Comm(dim, kernel, real_t, dx, n_components=ncomp, shift=lagcomm.shift_value(shift, dx))
+    comm = lagcomm.Comm(dim, kernel, real_t, dx, n_components=ncomp, shift=lagcomm.shift_value(shift, dx), n=n_markers or lagcomm.N_BATCH)
     n = comm.n
     # the marker sets are defined relative to the cells: they move with the grid origin
-    P = (marker_set(mset, dim, shape, dx, np.float64, seed) + (comm.shift - dx / 2)).astype(real_t)
+    P = (marker_set(mset, dim, shape, dx, np.float64, seed)[:, :n] + (comm.shift - dx / 2)).astype(real_t)
     comm.locate(P.copy())
     fails = []
     ncell = int(np.prod(shape))
@@ -254,6 +254,14 @@ def run(r) -> None:
                 for sh in ("zero", "far"):
                     for ms in SETS:
                         cases.append(dict(dim=dim, kernel=kernel, dtype=dt, dx=lagcomm.DXS[1], ncomp=dim, mset=ms, seed=r.seed, shift=sh))
+    # marker-count alphabet, in particular counts EQUAL to the number of components (a (ncomp, N) field is then
+    # square and a layout slip goes unnoticed by shape checks) and a single marker
+    for dim in (2, 3):
+        for kernel in ("cosine", "peskin"):
+            for dt in ("float64", "float32"):
+                for nm in (1, 2, 3):
+                    for ms in ("mixed", "spread-out"):
+                        cases.append(dict(dim=dim, kernel=kernel, dtype=dt, dx=lagcomm.DXS[0], ncomp=dim, mset=ms, seed=r.seed, n_markers=nm))
     r.run_cases("adjoint-basis", "adjoint", cases)
     acc = [dict(dim=dim, kernel=k, dtype=dt, dx=lagcomm.DXS[0], ncomp=nc, depth=3 if quick else 6)
            for dim in (2, 3) for k in ("cosine", "peskin") for dt in ("float64", "float32") for nc in (1, dim)]
@@ -261,6 +269,6 @@ def run(r) -> None:
     seqs = [dict(dim=dim, kernel=k, dtype=dt, ncomp=nc, dx_order=list(o)) for dim in (2, 3) for k in ("cosine", "peskin") for dt in ("float64", "float32") for nc in (1, dim)
             for o in itertools.permutations(lagcomm.DXS, 2)]
     r.run_cases("construction-sequences", "sequence", seqs)
-    r.bounds = {"marker_sets": SETS, "batch": lagcomm.N_BATCH, "dx": lagcomm.DXS[:1] if quick else lagcomm.DXS, "components": "1 and dim", "grid_origins": lagcomm.SHIFTS, "history_depth": 3 if quick else 6}
+    r.bounds = {"marker_sets": SETS, "batch": lagcomm.N_BATCH, "dx": lagcomm.DXS[:1] if quick else lagcomm.DXS, "components": "1 and dim", "marker_counts": [1, 2, 3, lagcomm.N_BATCH], "grid_origins": lagcomm.SHIFTS, "history_depth": 3 if quick else 6}
     r.extra["rule"] = "adjoint: one state per unit impulse (cell x component) and per unit force (marker x component); accumulation: BFS states = bytes of the target field"
     r.assumptions = ["numba closures (fastmath) driven directly; entries compared to 16 eps"]
